@@ -739,6 +739,9 @@ class _Unmarshaller:
 
 
 def _read(self, n):
+    if n < 0:
+        # A negative length would move the read position backwards.
+        raise ValueError("bad marshal data (negative length %d)" % n)
     pos = self.bufpos
     newpos = pos + n
     if newpos > len(self.bufstr):
